@@ -432,6 +432,42 @@ Theorem c11_seed_flow_sim_experiment :
 Proof. by_check. Qed.
 Print Assumptions c11_seed_flow_sim_experiment.
 
+
+(* ==== multi-objective model-based searcher (MultiObjectiveMultiSurrogateSearcher, user-supplied sklearn-style
+   surrogates, default random-scalarisation scoring), seeded through EITHER route: random_seed itself is not fixed
+   in this configuration (with random_seed_generator the name random_seed is None) =========================== *)
+Definition allow_ambient_mo : list (string * eff) := [
+  (* profiling only: cumulative_get_config_time *)
+  ("syne_tune.optimizer.schedulers.searchers.model_based_searcher.ModelBasedSearcher.get_config/2", WallClock)
+].
+Definition allow_hash_mo : list (string * eff) := [
+  (* configs in set order of trial-id strings; only consumer builds a set of match strings (see allow_hash_gp) *)
+  ("syne_tune.optimizer.schedulers.searchers.bayesopt.datatypes.tuning_job_state.TuningJobState.all_configurations/1 comprehension over a set", HashOrderIter);
+  (* set of int positions *)
+  ("syne_tune.optimizer.schedulers.searchers.searcher_base.StochasticAndFilterDuplicatesSearcher.get_config/1 for-loop over a set left early", HashOrderIter);
+  (* list(set of match strings) inside get_state(): a state dump that clone_from_state turns into a set again; not on
+     the path of suggestions or decisions *)
+  ("syne_tune.optimizer.schedulers.searchers.utils.exclusion_list.ExclusionList.get_state/1 set passed to list", HashOrderIter)
+].
+Theorem c11_no_ambient_rng_mo_multisurrogate :
+  NoReachableEffect edges effs off_mo_multisurrogate roots_mo_multisurrogate ambient allow_ambient_mo.
+Proof. by_check. Qed.
+Print Assumptions c11_no_ambient_rng_mo_multisurrogate.
+(* every generator construction is seed-derived on BOTH seeding routes: in particular no *seed* argument is taken
+   from a dict lookup that may be None unless the generator route is forwarded in the same call *)
+Theorem c11_seed_flow_mo_multisurrogate :
+  NoReachableEffect edges effs off_mo_multisurrogate roots_mo_multisurrogate seed_flow allow_none.
+Proof. by_check. Qed.
+Print Assumptions c11_seed_flow_mo_multisurrogate.
+Theorem c11_no_hash_order_mo_multisurrogate :
+  NoReachableEffect edges effs off_mo_multisurrogate roots_mo_multisurrogate hash_order allow_hash_mo.
+Proof. by_check. Qed.
+Print Assumptions c11_no_hash_order_mo_multisurrogate.
+Theorem c11_instances_disjoint_mo_multisurrogate :
+  NoReachableEffect edges effs off_mo_multisurrogate roots_mo_multisurrogate shared_write allow_default_imputation.
+Proof. by_check. Qed.
+Print Assumptions c11_instances_disjoint_mo_multisurrogate.
+
 (* ==== what the theorems need from the translator ============================================================ *)
 (* [check_sound] / [reach_b] assume NOTHING about the translator: they are theorems about the generated lists.
    What ties them to an execution is stated here: if the nodes touched by a concrete execution form a trace that
